@@ -345,7 +345,8 @@ def tasks(tier):
     # (re-run here as dep.c02.*)
     return ['eq:%s' % m for m in mods] + ['names', 'steppers', 'order',
                                           'canary', 'group_names',
-                                          'stateless', 'dep:C02:closure']
+                                          'stateless', 'exact',
+                                          'dep:C02:closure']
 
 
 # ------------------------------------------------------------------ replays
@@ -503,6 +504,60 @@ def task_group_names(ctx, repo):
     ctx.prove('group_names.union_of_equations_and_precomputed_blocks', obs)
 
 
+EXACT = r"""
+import json, sys, importlib.util
+d = json.load(sys.stdin)
+spec = importlib.util.spec_from_file_location('pysph.sph.ae_ut', d['root'] + '/pysph/sph/acceleration_eval.py')
+mod = importlib.util.module_from_spec(spec); mod.__package__ = 'pysph.sph'; spec.loader.exec_module(mod)
+from pysph.base.particle_array import ParticleArray
+from pysph.sph.equation import Equation
+import numpy as np
+class UsesAll(Equation):
+    def initialize(self, d_idx, d_x, d_tag, d_pid, d_gid):
+        d_x[d_idx] = 1.0
+pa = ParticleArray(name='fluid', x=np.arange(3.0))
+out = dict(properties=sorted(pa.properties))
+try:
+    mod.check_equation_array_properties(UsesAll('fluid', None), [pa])
+    out['raised'] = None
+except RuntimeError as e:
+    out['raised'] = str(e)[:200]
+print(json.dumps(out))
+"""
+
+
+def task_exact(ctx, repo):
+    """The error "names what is missing": when the checker raises for array
+    properties, something IS missing.  An array that has exactly the
+    properties an equation needs, and not one more, is a complete problem:
+    the subset test is not a PROPER-subset test.  (Static: the comparison of
+    the needed names with the available ones in _check_array is `<=`;
+    native: such a problem is accepted.)"""
+    from pyvc.repo import REPO_ROOT
+    m = repo.module('pysph.sph.acceleration_eval')
+    fn = m.functions['check_equation_array_properties']
+    ops = []
+    for node in ast.walk(fn):
+        if isinstance(node, ast.Compare) and len(node.ops) == 1 and \
+                isinstance(node.ops[0], (ast.Lt, ast.LtE, ast.Gt, ast.GtE)) \
+                and 'props' in ast.unparse(node):
+            ops.append(type(node.ops[0]).__name__)
+
+    def rp(model, ob):
+        try:
+            r = native.run_venv(EXACT, dict(root=REPO_ROOT), timeout=600)
+        except Exception as e:
+            return dict(reproduced=False, note=str(e)[-300:])
+        return dict(reproduced=r['raised'] is not None,
+                    case='array with exactly the properties x, tag, pid, gid '
+                         'and an equation that uses all four', **r)
+    ctx.function(m, fn, 'check_equation_array_properties (subset test)')
+    ctx.prove('exact.complete_problem_without_a_spare_property_is_accepted',
+              [Obligation('exact.subset_test_is_not_proper', [],
+                          z3.BoolVal(ops == ['LtE']), m.path,
+                          extra=dict(comparisons=ops))], replay=rp)
+
+
 def run_task(task, ctx):
     if task.startswith('dep:'):
         from contracts import deps
@@ -512,6 +567,8 @@ def run_task(task, ctx):
         return task_group_names(ctx, repo)
     if task == 'stateless':
         return task_stateless(ctx, repo)
+    if task == 'exact':
+        return task_exact(ctx, repo)
     if task.startswith('eq:'):
         return task_eq_module(ctx, repo, task[3:])
     if task == 'names':
@@ -631,6 +688,21 @@ def task_eq_module(ctx, repo, mn):
             if nr == 0:
                 exp_obs.append(Obligation('%s.nosrc.accepts_nothing' % cn,
                                           [], z3.BoolVal(False), m.path))
+        if need['es'] or need['is_']:
+            # ... and an equation that reads SOURCE data (explicitly or
+            # through a pair symbol) but is given no source is an incomplete
+            # problem: the generated code would dereference source arrays
+            # that are never bound ("silently read unrelated memory")
+            m3, fn3, ex3, outs3, mems3 = run_checker(
+                repo, mn, cn, need, sources=None, arrays=('D',))
+            ok3 = len(outs3) >= 1 and all(
+                o.kind == 'raise' and o.value.exc_type == 'RuntimeError'
+                for o in outs3)
+            exp_obs.append(Obligation(
+                '%s.without_sources_is_rejected' % cn, [],
+                z3.BoolVal(bool(ok3)), m.path, extra=dict(
+                    need=(mn, cn), outcomes=str([o.kind for o in
+                                                 outs3])[:100])))
     first = classes[0]
 
     def rp_for(kind):
